@@ -227,9 +227,15 @@ func c08(args []string) error {
 			rg[1] = rg[0] + r.Intn(n-rg[0]+1) // may exceed the last row: clipped
 			rg[2] = r.Intn(n)
 			rg[3] = rg[2] + r.Intn(n-rg[2]+1)
-			if n >= 3 && r.Intn(2) == 0 { // range 1 strictly below range 2 in the matrix: every pair visited with i > j
+			switch shape := r.Intn(3); {
+			case n >= 3 && shape == 0: // range 1 strictly below range 2 in the matrix: every pair visited with i > j
 				k := 1 + r.Intn(n-1)
 				rg = [4]int{k, n - 1, 0, k - 1}
+			case n >= 3 && shape == 1: // overlapping ranges, range 1 reaching beyond the last row of range 2: pairs
+				// (i, j) with i past range 2 and j inside both ranges are produced once only, from row i
+				k := 1 + r.Intn(n-2)   // 1 .. n-2
+				m := k + r.Intn(n-1-k) // k .. n-2
+				rg = [4]int{k, n - 1, r.Intn(k + 1), m}
 			}
 			cb := clone()
 			cb.ranges = &rg
